@@ -168,14 +168,19 @@ func (w *World) extractChain(fx *Facts, fn *ssa.Function) (*Chain, error) {
 				continue
 			}
 			a := c.Call.Args[pi]
-			st.Arg[p.Name()] = a
+			// roles are positional (c20roles): what the constructor calls its parameters does not matter
+			pname := p.Name()
+			if rs := c20roles[cal.Name()]; pi < len(rs) {
+				pname = rs[pi]
+			}
+			st.Arg[pname] = a
 			if _, isSig := p.Type().Underlying().(*types.Signature); isSig {
 				tg, ok := fx.funcTargets(a)
 				if !ok || len(tg) == 0 {
-					return nil, fmt.Errorf("%s: closure argument %q of %s cannot be resolved", w.InstrPos(c), p.Name(), cal.Name())
+					return nil, fmt.Errorf("%s: closure argument %q of %s cannot be resolved", w.InstrPos(c), pname, cal.Name())
 				}
-				st.Role[p.Name()] = tg
-			} else if k, isConst := a.(*ssa.Const); isConst && p.Name() == "valueName" {
+				st.Role[pname] = tg
+			} else if k, isConst := a.(*ssa.Const); isConst && pname == "valueName" {
 				st.Name = strings.Trim(k.Value.ExactString(), `"`)
 			}
 		}
